@@ -11,7 +11,7 @@ def main(mods, only=None):
     obls = []
     for key, con in uni.contracts.items():
         if only and only not in key: continue
-        if con.get("assumed") or "params" in con or con.get("assumed_body"): continue
+        if con.get("assumed") or ("params" in con and not con.get("ensures")) or con.get("assumed_body"): continue
         try:
             ex = Exec(uni, key, con)
             o = ex.verify()
